@@ -25,16 +25,22 @@ ASSUMPTIONS = [
 STATIC_SAMPLES = ['@a{k, f = "x" # {y}}  with indent=\'\\t\', value_column=\'auto\', trailing_comma=True, block_separator=\'\'']
 
 
+AUTO2 = "auto (an equal string built at run time)"  # marker in a format spec: mkformat() sets value_column to "".join(["au", "to"])
+
+
 def formats(tier):
     if tier == "quick":
-        ind, vc, sep = ["", "\t", "  \t"], [0, 12, "auto"], ["", " ", "\n\n"]
+        ind, vc, sep = ["", "\t", "  \t"], [0, 12, "auto", AUTO2], ["", " ", "\n\n"]
     else:
-        ind, vc, sep = ["", " ", "\t", "  \t"], [0, 1, 4, 12, 30, "auto"], ["", " ", "\n", "\n\n", "\n\n\n"]
+        ind, vc, sep = ["", " ", "\t", "  \t"], [0, 1, 4, 12, 30, "auto", AUTO2], ["", " ", "\n", "\n\n", "\n\n\n"]
     return [(i, v, t, s) for i in ind for v in vc for t in (False, True) for s in sep]
 
 
 def mkformat(spec):
     f = BibtexFormat()
+    spec = tuple(spec)
+    if spec[1] == AUTO2:
+        spec = (spec[0], "".join(["au", "to"])) + spec[2:]  # as it arrives from a configuration file: equal to, but not, the literal
     f.indent, f.value_column, f.trailing_comma, f.block_separator = spec
     return f
 
@@ -57,6 +63,8 @@ EXTRA_DOCS = [
     "@comment{a}@comment{a}",  # structurally equal blocks (same text, same line)
     "@preamble{p}@preamble{p}@comment{a}@preamble{p}",
     "% same\n@a{k1, t = {x}}\n% same\n@a{k2, t = {x}}\n% same",
+    # values ending in a backslash followed by a line break before the closing delimiter
+    '@a{k, abstract = {first line \\\\\n}, u = "x\\\\\n", v = {y\\ \n}}\n@string{s = {z\\\\\n}}',
     # enclosed values whose content is the name of a defined @string, in fields with well-known keys
     '@string{jan = "Janvier"}\n@string{feb = {F}}\n@a{k, month = {jan}, note = "jan", year = {feb}}\n@b{j, month = "jan", pages = "feb", number = jan}',
     '@a{k, month = {jan}, year = "1990", volume = {12}, pages = {mar}}\n@string{mar = {M}}',
